@@ -10,8 +10,8 @@ Lattice (top-level declarations are structs and unions, members named m0, m1, ..
   B   members from core leaves {char, short, int, long, long double} (one per alignment class 1/2/4/8/16; quick:
       nested core {char, int, long, long double}), their arrays [1..3], nested struct/union of <= 2 members
       (thorough: nested members may also be char[3] / short[3]) and arrays [2] of those nested aggregates
-  quick: <= 2 members; thorough: <= 3 members (3 members over A-quick, over core u nested(core), and the
-  sandwich core / B-member / core).
+  quick: <= 2 members; thorough: <= 3 members (3 members over A-quick, over core u nested{char,long,long double},
+  and the sandwich core / B-member / core).
 For every declaration and both managers (CTypesManagerNotPacked vs gcc natural layout, CTypesManagerPacked vs gcc
 packed layout): size and alignment of the declaration and of every nested aggregate, offset and size of EVERY
 field path (all array elements, all nested members). Second oracle, for every field path p: c_to_expr("ptr->p")
@@ -192,13 +192,14 @@ def lattice(quick):
     mb = core + arrays_of(core, (1, 2, 3)) + nt + arrays_of(nt, (2,))
     for d in tops(mb, (1, 2), need_nested=True):
         yield d
-    for d in tops(core + nq, (3,), need_nested=True):
+    nq3 = nested_aggs([leaf(n) for n in ("char", "long", "long double")], 2)
+    for d in tops(core + nq3, (3,), need_nested=True):
         yield d
     for kind in ("struct", "union"):
         for a in core:
             for mid in mb:
-                if not has_agg(mid) or mid in nq:
-                    continue        # nested(ncore) in the middle is already part of the 3-member product above
+                if not has_agg(mid) or mid in nq3:
+                    continue        # nested{char,long,long double} in the middle: part of the 3-member product above
                 for b in core:
                     yield [kind, [a, mid, b]]
 
